@@ -1708,3 +1708,16 @@ MUTANTS += [
  dict(id='R15-role-shifted', props=['C08'], expect='R-AUTH-ROLE-WHOLE-BYTE/auth-role/',
       edits=[(TA, '\trole := buf[1]\n', '\trole := buf[1] % 4\n')]),
 ]
+# ---- round 16 ----
+HUB = 'internal/peers/hub.go'
+SS = 'internal/app/snapshot_sender.go'
+MUTANTS += [
+ dict(id='R16-benign-control-eof-made-unexpected', props=['C02'], expect='SILENT',
+      edits=[(MS, '\t\tdefer close(controlEnded)\n\t\tfor {\n\t\t\tmsgType, msg, err := readControlMessage(controlStream)\n\t\t\tif err != nil {\n', '\t\tdefer close(controlEnded)\n\t\tfor {\n\t\t\tmsgType, msg, err := readControlMessage(controlStream)\n\t\t\tif err != nil {\n\t\t\t\tif errors.Is(err, io.EOF) {\n\t\t\t\t\terr = io.ErrUnexpectedEOF\n\t\t\t\t}\n')]),
+ dict(id='R16-control-cancel-becomes-nil', props=['C02'], expect='R-CONTROL-ERROR-VERBATIM/control-error/',
+      edits=[(MS, '\t\tdefer close(controlEnded)\n\t\tfor {\n\t\t\tmsgType, msg, err := readControlMessage(controlStream)\n\t\t\tif err != nil {\n', '\t\tdefer close(controlEnded)\n\t\tfor {\n\t\t\tmsgType, msg, err := readControlMessage(controlStream)\n\t\t\tif err != nil {\n\t\t\t\tif errors.Is(err, context.Canceled) {\n\t\t\t\t\terr = nil\n\t\t\t\t}\n')]),
+ dict(id='R16-benign-remove-timeout-logged', props=['C11'], expect='SILENT',
+      edits=[(HUB, '\t\tcase <-time.After(1 * time.Second):\n\t\t\t// Timeout - continue anyway\n', '\t\tcase <-time.After(1 * time.Second):\n\t\t\t// Timeout - continue anyway\n\t\t\t_ = sessionID\n')]),
+ dict(id='R16-remove-returns-when-writer-done', props=['C11'], expect='R-REMOVE-REACHES-CLEANUP/remove-cleanup/',
+      edits=[(HUB, '\t\tselect {\n\t\tcase <-pc.done:\n\t\tcase <-time.After(1 * time.Second):\n\t\t\t// Timeout - continue anyway\n', '\t\tselect {\n\t\tcase <-pc.done:\n\t\tcase <-time.After(1 * time.Second):\n\t\t\t// Timeout - continue anyway\n\t\t\tif sessionID == "" {\n\t\t\t\treturn\n\t\t\t}\n')]),
+]
